@@ -79,6 +79,65 @@ def _unchecked_ops(txt):
     return txt
 
 
+def _rewrite_nodes(txt, name, fn):
+    """apply fn(args) -> replacement text (or None) to every `name(a,b)` node, innermost first"""
+    key = name + "("
+    i = txt.find(key)
+    while i >= 0:
+        if i == 0 or not (txt[i - 1].isalnum() or txt[i - 1] == "_"):
+            depth, j = 0, i + len(name)
+            while j < len(txt):
+                if txt[j] in "([{<":
+                    depth += 1
+                elif txt[j] in ")]}>":
+                    depth -= 1
+                    if depth == 0:
+                        break
+                j += 1
+            args = [_rewrite_nodes(a, name, fn) for a in _split_top(txt[i + len(key):j])]
+            rep = fn(args)
+            if rep is None:
+                rep = "%s(%s)" % (name, ",".join(args))
+            txt = txt[:i] + rep + txt[j + 1:]
+            i = txt.find(key, i + len(rep))
+            continue
+        i = txt.find(key, i + len(key))
+    return txt
+
+
+def norm_arith(txt):
+    """constants by value, constant sub-expressions folded, powers of two in one spelling (`x >> k` = `x / 2^k`, `x << k` = `x * 2^k`,
+    `x & (2^k - 1)` = `x % 2^k`), `..n` as `0..n`"""
+    txt = re.sub(r"(?<![\w>])[A-Za-z_][\w:]*=(\d+)", r"\1", txt)
+    txt = txt.replace("core::ops::RangeTo::RangeTo{", "core::ops::Range::Range{0,")
+    for _ in range(4):
+        new = re.sub(r"\b(Add|Sub|Mul|Shl|Shr)\((\d+),(\d+)\)", lambda m: str({"Add": lambda a, b: a + b, "Sub": lambda a, b: a - b, "Mul": lambda a, b: a * b,
+                                                                                    "Shl": lambda a, b: a << b, "Shr": lambda a, b: a >> b}[m.group(1)](int(m.group(2)), int(m.group(3))))
+                     if not (m.group(1) == "Sub" and int(m.group(2)) < int(m.group(3))) and not (m.group(1) in ("Shl", "Shr") and int(m.group(3)) > 63) else m.group(0), txt)
+        new = re.sub(r"\((\d+) as \w+\)", r"\1", new)
+        if new == txt:
+            break
+        txt = new
+
+    def shr(a):
+        return "Div(%s,%d)" % (a[0], 1 << int(a[1])) if len(a) == 2 and re.fullmatch(r"\d+", a[1]) and int(a[1]) < 64 else None
+
+    def shl(a):
+        return "Mul(%s,%d)" % (a[0], 1 << int(a[1])) if len(a) == 2 and re.fullmatch(r"\d+", a[1]) and int(a[1]) < 64 and not re.fullmatch(r"\d+", a[0]) else None
+
+    def band(a):
+        if len(a) != 2:
+            return None
+        for x, m in ((a[0], a[1]), (a[1], a[0])):
+            if re.fullmatch(r"\d+", m) and int(m) > 0 and (int(m) & (int(m) + 1)) == 0 and not re.fullmatch(r"\d+", x):
+                return "Rem(%s,%d)" % (x, int(m) + 1)
+        return None
+    txt = _rewrite_nodes(txt, "Shr", shr)
+    txt = _rewrite_nodes(txt, "Shl", shl)
+    txt = _rewrite_nodes(txt, "BitAnd", band)
+    return txt
+
+
 def norm_sums(txt):
     """sums of several terms are written flat, terms sorted, literal terms folded: `Add(Add(a,1),Add(b,1))` = `Sum(2,a,b)` (additions of
     small unsigned quantities: the association is form)"""
@@ -163,7 +222,9 @@ def summary(f):
         if k not in names:
             names[k] = "v%d" % len(names)
         return "local:" + names[k]
-    lines = [norm_sums(_unchecked_ops(l)) for l in lines]
+    lines = [norm_sums(norm_arith(_unchecked_ops(l))) for l in lines]
+    # a whole array field set to one value: `f = [v; N]` and `f.fill(v)` are the same store
+    lines = [re.sub(r"^STORE (param:[\w.]+) = \[(.*);\w+\]$", r"CALL core::slice::<impl [T]>::fill(\1,\2)", l) for l in lines]
     # the kept result of a pure call is a value like any other
     lines = [re.sub(r"^CALL~ (local:\w+) = ", r"STORE \1 = ", l) for l in lines]
     # the whole of an array as a slice: `&a[..]` and the unsizing coercion `a as &[T]` are the same view
@@ -464,6 +525,22 @@ def path_summary(prog, f):
             if a is None:
                 conds.append("%s %s %s" % (canon(e), c[1], sorted(c[2])))
             elif a[0] == "truth":
+                x0 = strip(a[1])
+                if x0[0] == "local" and len(f.defs.get(x0[1], [])) > 1:
+                    # a boolean temporary of a short-circuit / inlined predicate: when exactly one of its definitions can give the wanted
+                    # value, path_conds has already added that definition's own conditions - the temporary itself says nothing more
+                    prod = 0
+                    for (_b, _i, k_, x_) in f.defs[x0[1]]:
+                        if k_ == "rv":
+                            v_ = sy.rvalue(x_)
+                            if v_[0] == "const" and v_[1] in (0, 1) and v_[2] is None:
+                                prod += 1 if bool(v_[1]) == a[2] else 0
+                            else:
+                                prod += 1
+                        else:
+                            prod += 1
+                    if prod == 1:
+                        continue
                 tt, tv = canon(strip(a[1])), a[2]
                 # `x != y` through the trait method is `!(x == y)`
                 m = re.match(r"^(.*PartialEq[^(]*)::ne(?:::<[^()]*>)?\((.*)$", tt)
@@ -489,7 +566,9 @@ def path_summary(prog, f):
     # `==` / `!=` go through `PartialEq`, as an impl method (`<T as PartialEq>::eq`), the trait's provided `ne`, or the array impl: one name
     def peq(txt):
         return re.sub(r"(?:<[^()]*? as core::cmp::PartialEq(?:<[^()]*?>)?>|core::cmp::PartialEq|core::array::equality::<impl core::cmp::PartialEq<[^()]*?> for [^()]*?>|core::cmp::impls::<impl core::cmp::PartialEq<[^()]*?> for [^()]*?>)::(eq|ne)(?:::<[^()]*>)?\(", r"PartialEq::\1(", txt)
-    out = sorted({"%s <= %s" % (ren(peq(r)), ren(" & ".join(sorted(peq(c) for c in cs)))) for cs, r in sites})
+    def nrm(t):
+        return norm_sums(norm_arith(_unchecked_ops(t)))
+    out = sorted({"%s <= %s" % (ren(nrm(peq(r))), ren(" & ".join(sorted(nrm(peq(c)) for c in cs)))) for cs, r in sites})
     return out
 
 
